@@ -248,6 +248,7 @@ func runC17(c *core.Ctx, r *core.Reporter) {
 		"every read or write of Aux.cache, Aux.methods and Aux.defaultCaller happens with Aux.moo of the same Aux value held", 8)
 	c17run(c, r)
 	c17relock(c, r)
+	c17recheck(c, r)
 }
 
 // c17relock: turning synchronisation on installs a new mutex. Doing that on an instance that is already
